@@ -17,6 +17,8 @@ type gobj struct {
 	codec  string
 	enc    bool // file content is encrypted
 	annexb bool // samples were converted to byte stream format
+	src    string // file: the source it was decoded from ("i<k>" / "o<k>")
+	lazy   bool   // file: decoded with DecModeLazyMdat (mdat payload not in memory)
 }
 
 func (g *gobj) video() bool   { return g.codec == "avc" || g.codec == "hevc" }
@@ -77,8 +79,28 @@ func (g *generator) decode(k int, sr bool, d int) int {
 	}
 	g.emit(op{code: code, src: fmt.Sprintf("i%d", k), d: d})
 	in := g.c.info[k]
-	g.objs[d] = &gobj{kind: 'f', alias: alias, origin: k, role: in.role, codec: in.codec, enc: in.enc}
+	g.objs[d] = &gobj{kind: 'f', alias: alias, origin: k, role: in.role, codec: in.codec, enc: in.enc, src: fmt.Sprintf("i%d", k)}
 	return d
+}
+
+// lazy decode (DecModeLazyMdat, io.ReadSeeker path only) of shared input k into object d: no view of the input is kept.
+func (g *generator) decodeLazy(k int, d int) int {
+	g.emit(op{code: 'L', src: fmt.Sprintf("i%d", k), d: d})
+	in := g.c.info[k]
+	g.objs[d] = &gobj{kind: 'f', alias: -1, origin: k, role: in.role, codec: in.codec, enc: in.enc, src: fmt.Sprintf("i%d", k), lazy: true}
+	return d
+}
+
+// ReadData of every mdat of file k through a ReadSeeker over the file's source: fresh bytes if the file was decoded lazily,
+// views of MdatBox.Data otherwise (which are views of the input after a SliceReader decode).
+func (g *generator) readData(k int, d int) {
+	o := g.objs[k]
+	g.emit(op{code: 'M', o: k, src: o.src, d: d})
+	alias := o.alias
+	if o.lazy {
+		alias = -1
+	}
+	g.objs[d] = &gobj{kind: 's', alias: alias, origin: o.origin, codec: o.codec, enc: o.enc}
 }
 
 func (g *generator) inplaceOK(o *gobj) bool { return g.mode != modeSafe || o.alias < 0 }
@@ -199,11 +221,16 @@ func genProgram(rng *hx.Rng, c *corpus, mode genMode, forcedInput int, forcedMut
 			o.enc = true
 		}
 	} else {
-		switch rng.Intn(10) {
+		switch rng.Intn(12) {
 		case 0, 1, 2, 3:
 			g.decryptPipeline()
 		case 4:
 			g.encryptPipeline()
+		case 10, 11:
+			// the lazy-mdat path: decode without the payload, then read it through a ReadSeeker of the goroutine's own
+			k := g.pickBytes(func(in inputInfo) bool { return in.role == "full" || in.role == "media" })
+			f := g.decodeLazy(k, g.fresh())
+			g.readData(f, g.fresh())
 		default:
 			g.decode(anyInput(), rng.Bool(), g.fresh())
 		}
@@ -221,7 +248,18 @@ func genProgram(rng *hx.Rng, c *corpus, mode genMode, forcedInput int, forcedMut
 		o := g.objs[k]
 		switch o.kind {
 		case 'f':
-			switch rng.Intn(11) {
+			switch rng.Intn(14) {
+			case 11, 12:
+				if !o.hasMedia() || o.src == "" {
+					continue
+				}
+				d := g.newID()
+				if d == k {
+					continue
+				}
+				g.readData(k, d)
+			case 13:
+				g.decodeLazy(anyInput(), g.newID())
 			case 10:
 				// allowed in every mode: append must never write through a view of the input
 				g.emit(op{code: 'A', o: k})
@@ -244,9 +282,13 @@ func genProgram(rng *hx.Rng, c *corpus, mode genMode, forcedInput int, forcedMut
 				g.emit(op{code: code, o: k, d: d})
 				b := *o
 				b.kind, b.alias = 'b', -1
+				if o.lazy { // header of the mdat without its payload: not a decodable file
+					b.origin = -1
+				}
+				b.src, b.lazy = "", false
 				g.objs[d] = &b
 			case 3, 4:
-				if !o.hasMedia() {
+				if !o.hasMedia() || (o.lazy && rng.Intn(4) > 0) { // GetFullSamples refuses a lazy mdat
 					continue
 				}
 				d := g.newID()
@@ -256,7 +298,7 @@ func genProgram(rng *hx.Rng, c *corpus, mode genMode, forcedInput int, forcedMut
 				g.emit(op{code: 'G', o: k, d: d})
 				g.objs[d] = &gobj{kind: 's', alias: o.alias, origin: o.origin, codec: o.codec, enc: o.enc}
 			case 5, 6:
-				if o.role != "full" || o.codec == "" || !g.inplaceOK(o) {
+				if o.role != "full" || o.codec == "" || !g.inplaceOK(o) || o.lazy {
 					continue
 				}
 				if !o.enc {
@@ -295,10 +337,13 @@ func genProgram(rng *hx.Rng, c *corpus, mode genMode, forcedInput int, forcedMut
 			code := byte('D')
 			if rng.Bool() {
 				code = 'R' // SliceReader over the goroutine's own buffer: aliasing, but not of a shared input
+			} else if rng.Intn(4) == 0 {
+				code = 'L'
 			}
 			g.emit(op{code: code, src: fmt.Sprintf("o%d", k), d: d})
 			f := *o
 			f.kind, f.alias = 'f', -1
+			f.src, f.lazy = fmt.Sprintf("o%d", k), code == 'L'
 			g.objs[d] = &f
 		case 's':
 			if !o.video() || !g.inplaceOK(o) {
@@ -336,7 +381,7 @@ func genProgram(rng *hx.Rng, c *corpus, mode genMode, forcedInput int, forcedMut
 func inputsRead(p []op) map[int]bool {
 	m := map[int]bool{}
 	for _, o := range p {
-		if (o.code == 'D' || o.code == 'R' || o.code == 'Y') && len(o.src) > 1 && o.src[0] == 'i' {
+		if (o.code == 'D' || o.code == 'R' || o.code == 'Y' || o.code == 'L' || o.code == 'M') && len(o.src) > 1 && o.src[0] == 'i' {
 			var k int
 			fmt.Sscanf(o.src[1:], "%d", &k)
 			m[k] = true
